@@ -73,6 +73,10 @@ pub struct Case {
     pub steps: Vec<Step>,
     /// kill during step k at the generated mutating call, before/after
     pub kill: Option<(u8, u16, bool)>,
+    /// in step k (modulo) the n-th directory read (getdents) of the destination directory fails with EIO:
+    /// "listing a directory" failed, so either the run fails or the backups are still right
+    #[serde(default)]
+    pub list_fault: Option<(u8, u8)>,
 }
 
 fn num_class() -> BoxedStrategy<NumClass> {
@@ -100,8 +104,9 @@ pub fn strategy(with_kill: bool) -> BoxedStrategy<Case> {
         prop::collection::vec((0u8..8, num_class()), 0..4),
         prop::collection::vec(step, 2..7),
         kill,
+        prop::option::weighted(0.2, (0u8..8, 0u8..6)),
     )
-        .prop_map(|(names, present, seeded, steps, kill)| Case { names, present, seeded, steps, kill })
+        .prop_map(|(names, present, seeded, steps, kill, list_fault)| Case { names, present, seeded, steps, kill, list_fault })
         .boxed()
 }
 
@@ -340,6 +345,17 @@ pub fn judge(c: &Case, rec: &mut Rec) -> Verdict {
                 rec.class(format!("kill|{:?}|{}|fired={}", sys, if after { "after" } else { "before" }, fired));
                 (o.ok() && !fired, fired, o.stderr_s())
             }
+        } else if matches!(c.list_fault, Some((k, _)) if k as usize % c.steps.len() == si) && mode != "none" {
+            let (_, n) = c.list_fault.unwrap();
+            let rule = Rule { sys: vec![Sys::Getdents], path: PathSel::Exact(join(&root, b"d/s")), nth: Nth::Kth(n as usize), action: Action::Errno(libc::EIO) };
+            let o = Sup::run(sup_spec(&sb, args.clone(), vec![rule], Sched::free()));
+            rec.eval(1);
+            if o.setup_error.is_some() || o.timed_out {
+                return Verdict::Inconclusive("fault run".into());
+            }
+            let fired = o.fired.iter().sum::<usize>() > 0;
+            rec.class(format!("listing-fault|{}|fired={}|exit={}", mode, fired, if o.ok() { "0" } else { "!0" }));
+            (o.ok(), false, o.stderr_s())
         } else {
             let o = run_plain(&RunSpec::xcp(args.clone(), &sb.root, &sb.out));
             rec.eval(1);
@@ -397,7 +413,7 @@ impl Check for C09 {
         "C09"
     }
     fn rule(&self) -> String {
-        "stateful, model-based: proptest generates a history of 2-6 steps over a directory of 2-6 files whose names are drawn from a set with prefix relations (a, a.txt, ab, file, file.txt), names that look like backups (a.~1~, a.~1~.~2~, ~1~, n~), trailing dots, spaces, unicode and non-UTF-8 bytes, names of 251 and 252 bytes (name.~1~ is exactly NAME_MAX / one byte too long, so the backup rename itself fails); the destination is pre-seeded with old versions and with backups numbered small / with gaps / 10^15 / u64::MAX-1 / u64::MAX / 25 digits / 0 / with leading zeros / 1..9+k (numbers of different lengths side by side) / arbitrary pairs below 1200; each step rewrites a generated subset of the sources and runs the real xcp -r with --backup none|auto|numbered, a generated driver and worker count. After every step the destination directory before and after is compared: numbered => each overwritten file's old bytes, mode and mtime are in a new <name>.~N~ with N above every number present for exactly that name; auto => that happens iff such a backup existed; none => no new backup; always => every pre-existing backup is untouched (same inode and bytes); on failure the old content still exists. The kill sub-check additionally kills xcp before/after a generated mutating call inside a numbered step. Non-trivial: a step that overwrote >=1 existing file in auto/numbered mode; distinct by (history, step).".into()
+        "stateful, model-based: proptest generates a history of 2-6 steps over a directory of 2-6 files whose names are drawn from a set with prefix relations (a, a.txt, ab, file, file.txt), names that look like backups (a.~1~, a.~1~.~2~, ~1~, n~), trailing dots, spaces, unicode and non-UTF-8 bytes, names of 251 and 252 bytes (name.~1~ is exactly NAME_MAX / one byte too long, so the backup rename itself fails); the destination is pre-seeded with old versions and with backups numbered small / with gaps / 10^15 / u64::MAX-1 / u64::MAX / 25 digits / 0 / with leading zeros / 1..9+k (numbers of different lengths side by side) / arbitrary pairs below 1200; each step rewrites a generated subset of the sources and runs the real xcp -r with --backup none|auto|numbered, a generated driver and worker count. After every step the destination directory before and after is compared: numbered => each overwritten file's old bytes, mode and mtime are in a new <name>.~N~ with N above every number present for exactly that name; auto => that happens iff such a backup existed; none => no new backup; always => every pre-existing backup is untouched (same inode and bytes); on failure the old content still exists. In a fifth of the histories one directory read (getdents) of the destination directory fails with EIO in one auto/numbered step (the run must then fail, or the same invariants hold). The kill sub-check additionally kills xcp before/after a generated mutating call inside a numbered step. Non-trivial: a step that overwrote >=1 existing file in auto/numbered mode; distinct by (history, step).".into()
     }
     fn needs(&self) -> Needs {
         Needs { xcp: true, probe: false, fallback: false }
@@ -423,6 +439,6 @@ impl Check for C09 {
         }
     }
     fn required_classes(&self, _tier: Tier) -> Vec<String> {
-        ["step|numbered|", "step|auto|", "step|none|", "non-utf8", "backup-like", "name-max", "|killed", "kill|Rename|"].iter().map(|s| s.to_string()).collect()
+        ["step|numbered|", "step|auto|", "step|none|", "non-utf8", "backup-like", "name-max", "|killed", "kill|Rename|", "listing-fault|numbered|fired=true", "listing-fault|auto|fired=true"].iter().map(|s| s.to_string()).collect()
     }
 }
